@@ -55,4 +55,29 @@ CLAIMS['C01'] = {
   'note': 'Oracle written from the routine headers and the algebra A = Pr^T L U Pc^T (slucheck/props/c01.py). Representative values stand '
           'for the classes of info and nrhs. No-alias contract.',
 }
+CLAIMS['C05'] = {
+  'level': 'other',
+  'technique': 'static analysis: flag-partitioned constant propagation over the CFG with an algebraic event oracle (R3), field-sensitive effects (R10), sibling agreement (R9)',
+  'design_ref': 'DESIGN.md 4 R3 R9 R10, 5 C05',
+  'text': 'For each of the four ?gssvx and every valuation of Fact x Trans x Equil x storage x equed x outcomes of ?gsequ/?laqgs/?gstrf (about 370 '
+          'leaf valuations per type) the events of the driver are checked against the algebra of the equilibrated system: which routine '
+          'equilibrates which matrix and when, that A is not written when Equil = NO, which factor (R, C or none) multiplies B before and X '
+          'after the solve for the effective transpose, the transpose sense handed to the solve for row storage, copy/scale/solve/unscale '
+          'order, and that every subscript of B and X uses that matrix\'s own leading dimension. Necessary conditions of "X solves '
+          'op(A)X = B for the original A, B; A, B mutated only as equed says". Accuracy of X is not decided.',
+  'note': 'Known finding: {c,z}gssvx with row storage and Trans = CONJ solves A^T x = b (recorded, not repaired). Oracle in '
+          'slucheck/props/_expert.py. Representative values for classes of info/nrhs/leading dimensions.',
+}
+CLAIMS['C11'] = {
+  'level': 'other',
+  'technique': 'static analysis: constant propagation of the machine-constant routine, flag-partitioned exploration of the scaling routine with taint of factor arrays (R8 over R3), structural rules on the AST',
+  'design_ref': 'DESIGN.md 4 R8, 5 C11',
+  'text': '?mach is evaluated symbolically for each documented letter and must return the LAPACK constant; ?laqgs is explored for every '
+          'side of each threshold (rowcnd, colcnd against 0.1; amax against small = sfmin/prec and large) and must store the letter and apply '
+          'exactly the factor arrays the documented rule selects (N<->{}, R<->{r}, C<->{c}, B<->{r,c}); ?gsequ must clamp each reciprocal '
+          'into [smlnum, bignum], report an empty row as i+1 and an empty column as nrow+j+1 under exact zero tests, and measure magnitudes '
+          'with fabs / ?_abs1. All four types. Not decided: that scaled maxima equal one up to rounding; rowcnd/colcnd/amax equal their '
+          'definitions (data-dependent loops).',
+  'note': 'IEEE-754 binary32/binary64 constants are the reference for ?mach. Oracle in slucheck/rules/r8_equil.py.',
+}
 NOT_APPLICABLE = {}
